@@ -337,14 +337,14 @@ impl AtomicBitmap {
 }
 
 // ------------------------------------------------------------------ generic bitmap flavours
-// An inner bitmap seen through &self: its effects are invisible to Verus, so the contract is put in
-// the callee's precondition (`allowed` is uninterpreted: the only way to discharge it is to pass
-// exactly the arguments the caller's own contract names).
+// An inner bitmap: R7 as for AtomicBitmap -- mark_dirty takes &mut self here so that its effect is
+// visible: `marks()` is the ghost log of the calls received.  A wrapper must forward EXACTLY ONE call
+// with the translated range (never zero: a skipped call is a lost mark, C05; never another range: C16).
 pub trait InnerBitmap {
-    spec fn allowed(&self, offset: usize, len: usize) -> bool;
+    spec fn marks(&self) -> Seq<(usize, usize)>;
     spec fn s_dirty_at(&self, offset: usize) -> bool;
-    fn mark_dirty(&self, offset: usize, len: usize)
-        requires self.allowed(offset, len);
+    fn mark_dirty(&mut self, offset: usize, len: usize)
+        ensures final(self).marks() == old(self).marks().push((offset, len));
     fn dirty_at(&self, offset: usize) -> (r: bool)
         ensures r == self.s_dirty_at(offset);
 }
@@ -384,8 +384,10 @@ impl<B: InnerBitmap + Clone> BaseSlice<B> {
 //@canary drop_base :: self\.base_offset\.wrapping_add\(offset\) => offset
 //@endfn
 //@fn src/bitmap/backend/slice.rs :: impl<B> Bitmap for BaseSlice<B> :: mark_dirty :: tags=C09,C05,C07
+//@sub &self => &mut self
 //@spec
-    requires self.inner.allowed(wadd(self.base_offset, offset), len), // [C09,C05]
+    ensures final(self).base_offset == old(self).base_offset,
+        final(self).inner.marks() == old(self).inner.marks().push((wadd(old(self).base_offset, offset), len)), // [C09,C05,C16,C08]
 //@end
 //@canary drop_base :: self\.base_offset\.wrapping_add\(offset\) => offset
 //@endfn
@@ -415,10 +417,11 @@ pub trait SliceableBitmap: InnerBitmap + HasBase + Sized {
 }
 pub struct OptBitmap<B>(pub Option<B>);
 //@fn src/bitmap/mod.rs :: impl<B: Bitmap> Bitmap for Option<B> :: mark_dirty :: tags=C09,C05,C07 :: id=bitmap::Option::mark_dirty
-//@sub ^\s*fn mark_dirty\(&self => pub fn opt_mark_dirty<B: InnerBitmap>(self_: &Option<B>
+//@sub ^\s*fn mark_dirty\(&self => pub fn opt_mark_dirty<B: InnerBitmap>(self_: &mut Option<B>
 //@sub = self \{ => = self_ {
 //@spec
-    requires self_ matches Some(i) ==> i.allowed(offset, len), // [C09,C05]
+    ensures (*old(self_) is Some) == (*final(self_) is Some),
+        *old(self_) matches Some(i) ==> (*final(self_)).unwrap().marks() == i.marks().push((offset, len)), // [C09,C05,C16]
 //@end
 //@endfn
 //@fn src/bitmap/mod.rs :: impl<B: Bitmap> Bitmap for Option<B> :: dirty_at :: tags=C09,C07 :: id=bitmap::Option::dirty_at
